@@ -50,7 +50,9 @@ def _parse(out, res):
     m = re.search(r"The depth of the complete state graph search is (\d+)", out)
     if m:
         res.depth = int(m.group(1))
-    for line in out.splitlines():
+    # TLC prints the coverage statistics periodically on long runs: only the last block is the total
+    cov_at = out.rfind("The coverage statistics at")
+    for line in (out[cov_at:] if cov_at >= 0 else out).splitlines():
         c = _COV.match(line)
         if c:
             a = res.coverage.setdefault(c.group(1), [0, 0])
